@@ -1,5 +1,6 @@
 import PhononModel.Model.Settings
 import PhononModel.Gen.SettingsTable
+import PhononModel.Model.SettingsKeys
 import PhononModel.Model.Wire
 open PhononModel PhononModel.Wire PhononModel.Settings
 
@@ -15,6 +16,8 @@ Line protocol for C18 (one request line → one answer line, malformed → `bad-
 * `names tag|key|attr|dest|str|fn|flag` → the generated name list, `,`-separated
 * `main b₁…b₈ mode b₁…b₇`               → actions of `mainActions`
 * `fccalc fc fcsym load`                → `fcCalculator` (`fc`: `-` absent, `?` unknown, or id)
+* `key <dim|mesh|band|pa|pdos|float|int|frac|bool|centring> <hex of the value | ->` → the per-key parser of
+  Model/SettingsKeys.lean: `ok …` | `exit` (setting_error) | `exc` (uncaught exception)
 
 values: `N` `T` `F` `I<int>` `S<id>` `L` `K<id>,<truthy>,<len>`; output adds `A<fn>(<val>)`.
 raw: `t` | `f` | `o n (key val)ⁿ`.  argval: `n` | `bT` | `bF` | `v<truthy><inRange> raw`.
@@ -149,6 +152,54 @@ def readHeader (c : Cur) : Option (List (Nat × Val) × List (Nat × Raw) × Cur
   let (ks, c) ← Cur.entries? c nk
   pure (ov, ks, c)
 
+def hexVal (c : Char) : Option Nat :=
+  if '0' ≤ c ∧ c ≤ '9' then some (c.toNat - 48) else if 'a' ≤ c ∧ c ≤ 'f' then some (c.toNat - 87) else none
+
+def unhex : List Char → Option (List Char)
+  | [] => some []
+  | a :: b :: r => do
+    let x ← hexVal a
+    let y ← hexVal b
+    let rest ← unhex r
+    pure (Char.ofNat (16 * x + y) :: rest)
+  | _ => none
+
+open PhononModel.SettingsKeys in
+def showR {α : Type} (f : α → String) : R α → String
+  | .ok v => "ok " ++ f v
+  | .error .exit => "exit"
+  | .error .exc => "exc"
+
+def ratsStr (l : List Rat) : String := " ".intercalate (l.map showRat)
+def intsStr (l : List Int) : String := " ".intercalate (l.map toString)
+
+open PhononModel.SettingsKeys in
+def keyOp (name : String) (v : List Char) : Option String :=
+  match name with
+  | "dim" => some (showR intsStr (parseDim v))
+  | "mesh" => some (showR (fun m => match m with
+      | .length r => "L " ++ showRat r
+      | .three l => "3 " ++ intsStr l
+      | .nine l => "9 " ++ intsStr l) (parseMesh v))
+  | "band" => some (showR (fun b => match b with
+      | .auto => "auto"
+      | .paths p => "P " ++ " | ".intercalate (p.map (fun sec => ratsStr sec.flatten))) (parseBand v))
+  | "pa" => some (showR (fun b => match b with
+      | .auto => "auto"
+      | .letter c => "letter " ++ String.singleton c
+      | .matrix m => "M " ++ ratsStr m) (parsePA v))
+  | "pdos" => some (showR (fun b => match b with
+      | .auto => "auto"
+      | .groups g => "G " ++ " | ".intercalate (g.map intsStr)) (parsePdos v))
+  | "float" => some (showR showRat (pyFloat v))
+  | "int" => some (showR toString (pyInt v))
+  | "frac" => some (showR showRat (fracval v))
+  | "bool" => some (match parseBool v with | some true => "ok T" | some false => "ok F" | none => "ok unset")
+  | "centring" => some (match v with
+      | [c] => (match centring c with | some m => "ok " ++ ratsStr m | none => "ok none")
+      | _ => "ok none")
+  | _ => none
+
 def handle (line : String) : String :=
   let c : Cur := { toks := (tokens line).toArray }
   let r : Option String := do
@@ -189,6 +240,12 @@ def handle (line : String) : String :=
       let D := T.defaultSettings ov
       let confs := T.readOptions D (lookupRaw ks) (lookupArg al)
       pure ("ok " ++ " ".intercalate (confs.map (fun e => toString e.1 ++ ":" ++ showRawKind e.2)))
+    | "key" =>
+      let (name, c) ← c.str?
+      let (hx, c) ← c.str?
+      if !c.atEnd then none
+      let v ← unhex (if hx == "-" then [] else hx.toList)
+      keyOp name v
     | "wf" =>
       if !c.atEnd then none
       let T := Gen.table
